@@ -129,7 +129,7 @@ PROPS = {
         "explanation": "flag protocol of interruption: interrupt/resume transitions, the poll's reaction to every flag combination, safepoint wait-loop exit",
     },
     "C12": {
-        "units": ["span", "lex"],
+        "units": ["span", "lex", "num"],
         "trusted_base": ["Verus 0.2026.09.13 / Z3", "the /verif extractor/injector scripts (they copy real source text byte-for-byte)", "SourceId restated as a u32 newtype"],
         "assumptions": [
             "only the source-location arithmetic (Span) is decided: every derived span is the hull / concatenation of its arguments, so it lies inside the text when they do; that the LEXER produces spans inside the text, totality of the reader and the write/read round trip are NOT decided in this revision",
